@@ -1,6 +1,7 @@
 import Nstd.Avl.Props
 import Nstd.Avl.LemmasHeap
 import Nstd.Avl.LemmasHeapClimb
+import Nstd.Avl.LemmasHeapRemove
 /-
   Property C01 — the tie of the rotation code, by translation instead of by test.
 
@@ -222,6 +223,27 @@ theorem gen_count_eq_model (h : Heap) (t : Tree) (k : Int) (c fuel first : Nat) 
     rw [count_loop_eq h k _ _ _ 1 fuel _ n2 (by rw [List.length_drop, ← size_eq_length]; omega)]
     simp only [Option.some.injEq, Prod.mk.injEq]
     exact ⟨Nat.add_comm _ _, trivial⟩
+
+/-- **The head of `remove(it)`** of the current headers (cell computation, the three trivial cases, the choice of the
+    neighbour; `removeHead` = the statements in front of the label `rebalParent:` with the bodies of the two-children
+    branches cut off).  Called with the item held in cell `c`:
+    * `parent` is the item's parent;
+    * no left or no right child: the cell receives the only child (or null), that child's parent link is redirected,
+      nothing else changes, control goes to `rebalParentUpwards` (tag 0) — the heap holds the model's `removeRoot t`;
+    * two children: nothing is stored, the successor branch (tag 1) is taken iff the model's test `l.ht < r.ht` holds,
+      else the predecessor branch (tag 2). -/
+theorem gen_remove_head_eq_model (multi : Bool) (h : Heap) (c : Cell) (par i : Nat) (k v : Int) (hh : Nat) (s : Int)
+    (l r : Tree) (hc : CellAt c par) (hcell : c = .right par → h.left par ≠ h.get c)
+    (hsep : Sep par (node i k v hh s l r)) (hr : Repr h (h.get c) par (node i k v hh s l r)) :
+    let res := (if multi then Multi.removeHead else Map.removeHead) h (h.get c)
+    res.2.1 = par ∧
+    ((l = .nil ∨ r = .nil) → res.2.2 = 0 ∧
+      Repr res.1 (res.1.get c) par (Tree.removeRoot (node i k v hh s l r)) ∧ Frame h res.1 c (node i k v hh s l r)) ∧
+    (l ≠ .nil → r ≠ .nil → res.1 = h ∧ res.2.2 = if l.ht < r.ht then 1 else 2) := by
+  have := removeHead_repr h c par i k v hh s l r hc hcell (sep_split hsep).1 (sep_split hsep).2 hr
+  cases multi with
+  | false => exact this
+  | true => simp only [if_true, multi_removeHead]; exact this
 
 theorem multi_insertLoop : ∀ (fuel : Nat) (h : Heap) (p old : Nat),
     Multi.insertRebalance_loop fuel h p old = Map.insertRebalance_loop fuel h p old := by
